@@ -3733,7 +3733,7 @@ type Triggers []Trigger
 
 // Format formats the node.
 func (node Triggers) Format(buf *TrackedBuffer) {
-	prefix := "TRIGGER "
+	prefix := " TRIGGER "
 	for _, n := range node {
 		buf.Myprintf("%s%v", prefix, n)
 		prefix = ", "
